@@ -3,7 +3,7 @@ or materialise TLC-enumerated inputs and do the same (spec -> code)."""
 from __future__ import annotations
 import copy, itertools, json, random
 import networkx as nx
-import gen, record, tlc
+import gen, record, tlc, textgen
 from record import Session, relabel
 
 
@@ -246,7 +246,7 @@ def run_script(sid, script, g, rng):
         elif name == "write":
             lines = S.write(obj[o])
             if lines:
-                fl = {x: repr(float(x)) for e in S.ev if e["op"] == "write" for tri in e["xyz6"] for x in tri}
+                fl = textgen.floats_from_lines(lines)
                 obj[new] = S.read(lines, "V3000", "C09", floats=fl)
     return S
 
